@@ -750,7 +750,8 @@ class DeferQueue:
 
     def __init__(self):
         self._writes = []
-        self._pending_offsets = set()
+        # Dict[offset, length of the data queued at that offset]
+        self._pending_offsets = {}
         self._next_offset = 0
 
     def request_writes(self, offset, data):
@@ -766,7 +767,9 @@ class DeferQueue:
         each method call.
 
         """
-        if offset < self._next_offset:
+        if offset < self._next_offset and (
+            offset + len(data) <= self._next_offset
+        ):
             # This is a request for a write that we've already
             # seen.  This can happen in the event of a retry
             # where if we retry at at offset N/2, we'll requeue
@@ -774,15 +777,31 @@ class DeferQueue:
             return []
         writes = []
         if offset in self._pending_offsets:
-            # We've already queued this offset so this request is
-            # a duplicate.  In this case we should ignore
-            # this request and prefer what's already queued.
-            return []
+            if self._pending_offsets[offset] >= len(data):
+                # We've already queued this offset so this request is
+                # a duplicate.  In this case we should ignore
+                # this request and prefer what's already queued.
+                return []
+            # A retry may cut the stream at different places than the
+            # previous attempt did.  This request extends beyond what is
+            # queued for this offset so it replaces it.
+            self._writes = [w for w in self._writes if w[0] != offset]
+            heapq.heapify(self._writes)
         heapq.heappush(self._writes, (offset, data))
-        self._pending_offsets.add(offset)
-        while self._writes and self._writes[0][0] == self._next_offset:
-            next_write = heapq.heappop(self._writes)
-            writes.append({'offset': next_write[0], 'data': next_write[1]})
-            self._pending_offsets.remove(next_write[0])
-            self._next_offset += len(next_write[1])
+        self._pending_offsets[offset] = len(data)
+        while self._writes and self._writes[0][0] <= self._next_offset:
+            next_write_offset, next_write_data = heapq.heappop(self._writes)
+            del self._pending_offsets[next_write_offset]
+            # Only the part of the data that has not been written yet
+            # is handed out (a retried request can overlap the data that
+            # was already written).
+            already_written = self._next_offset - next_write_offset
+            if already_written:
+                if already_written >= len(next_write_data):
+                    continue
+                next_write_data = next_write_data[already_written:]
+            writes.append(
+                {'offset': self._next_offset, 'data': next_write_data}
+            )
+            self._next_offset += len(next_write_data)
         return writes
